@@ -20,6 +20,11 @@
 (*   <<"t", T, args>>       template-id  T< args >  (P may get one arg)    *)
 (*   <<"m", t, slot>>       typename t::slot                               *)
 (*   <<"own", slot>>        unqualified use of an earlier member typedef   *)
+(*   <<"self">>             the injected class name (P inside P<A,B>)      *)
+(* Base names include two classes K1, K2 (rendered ns1::K and ns2::K: the  *)
+(* same simple name) that have a member typedef t, and aliases of them     *)
+(* (KA = K1, KB = KA, CK = const K2); <<"m", x, "t">> with x a parameter   *)
+(* is the traits idiom  typename A::t.                                     *)
 (*                                                                         *)
 (* Norm is the reference rule: C++ instantiation semantics restricted to   *)
 (* this fragment ([temp.arg], [temp.param] default arguments evaluated in  *)
@@ -44,6 +49,11 @@ Arity == [P |-> 2, Q |-> 1, R |-> 1]
 Slots == {"m1", "m2"}
 NONE == <<"none">>
 BAD == <<"bad">>
+\* non-template classes and what their member typedef t denotes; aliases of class names
+ClassMember == [K1 |-> <<"b", "int">>, K2 |-> <<"b", "char">>]
+NameAlias == [KA |-> <<"b", "K1">>, KB |-> <<"b", "KA">>, CK |-> <<"c", <<"b", "K2">>>>]
+\* a (possibly const) class type, without the qualifier
+Unqual(n) == IF n[1] = "c" THEN n[2] ELSE n
 
 VARIABLES dflt,       \* NONE or the default argument of P's second parameter (a term over <<"p",1>>)
           defs,       \* defs[T][slot] : NONE or the member typedef's target
@@ -62,6 +72,7 @@ Subst(t, T, args) ==
     [] t[1] = "t" -> <<"t", t[2], [i \in 1..Len(t[3]) |-> Subst(t[3][i], T, args)]>>
     [] t[1] = "m" -> <<"m", Subst(t[2], T, args), t[3]>>
     [] t[1] = "own" -> Subst(defs[T][t[2]], T, args)      \* (only m2 may use m1, so this ends)
+    [] t[1] = "self" -> <<"t", T, args>>
 
 RECURSIVE Norm(_), Complete(_, _), NormArgs(_, _)
 \* the template-id's full argument list (default filled in), each argument normalised
@@ -77,15 +88,18 @@ NormArgs(T, args) ==           \* <<>> stands for "impossible"
 Complete(T, args) == \A s \in Slots : defs[T][s] # NONE => Norm(Subst(defs[T][s], T, args)) # BAD
 
 Norm(t) ==
-  CASE t[1] = "b" -> t
+  CASE t[1] = "b" -> IF t[2] \in DOMAIN NameAlias THEN Norm(NameAlias[t[2]]) ELSE t
     [] t[1] = "ptr" -> LET n == Norm(t[2]) IN IF n = BAD \/ n[1] = "ref" THEN BAD ELSE <<"ptr", n>>
     [] t[1] = "ref" -> LET n == Norm(t[2]) IN IF n = BAD THEN BAD ELSE IF n[1] = "ref" THEN n ELSE <<"ref", n>>
     [] t[1] = "c" -> LET n == Norm(t[2]) IN IF n = BAD THEN BAD ELSE IF n[1] \in {"ref", "c"} THEN n ELSE <<"c", n>>
     [] t[1] = "t" /\ t[2] = "V" ->        \* an alias template-id is its target, nothing else [temp.alias]
          LET a == Norm(t[3][1]) IN IF a = BAD \/ alias = NONE THEN BAD ELSE Norm(Subst(alias, "V", <<a>>))
     [] t[1] = "t" -> LET a == NormArgs(t[2], t[3]) IN IF Len(a) = 0 THEN BAD ELSE <<"t", t[2], a>>
-    [] t[1] = "m" -> LET n == Norm(t[2])
-                     IN IF n = BAD \/ n[1] # "t" THEN BAD
+    [] t[1] = "m" -> LET nq == Norm(t[2])
+                         n == IF nq = BAD THEN BAD ELSE Unqual(nq)
+                     IN IF n = BAD THEN BAD
+                        ELSE IF n[1] = "b" THEN (IF t[3] = "t" /\ n[2] \in DOMAIN ClassMember THEN ClassMember[n[2]] ELSE BAD)
+                        ELSE IF n[1] # "t" \/ t[3] \notin Slots THEN BAD
                         ELSE IF defs[n[2]][t[3]] = NONE \/ ~Complete(n[2], n[3]) THEN BAD
                         ELSE Norm(Subst(defs[n[2]][t[3]], n[2], n[3]))
     [] OTHER -> BAD
@@ -95,7 +109,7 @@ Norm(t) ==
 RECURSIVE NormE(_), Table(_, _)
 Table(T, args) == [s \in Slots |-> IF defs[T][s] = NONE THEN NONE ELSE NormE(Subst(defs[T][s], T, args))]
 NormE(t) ==
-  CASE t[1] = "b" -> t
+  CASE t[1] = "b" -> IF t[2] \in DOMAIN NameAlias THEN NormE(NameAlias[t[2]]) ELSE t
     [] t[1] = "ptr" -> LET n == NormE(t[2]) IN IF n = BAD \/ n[1] = "ref" THEN BAD ELSE <<"ptr", n>>
     [] t[1] = "ref" -> LET n == NormE(t[2]) IN IF n = BAD THEN BAD ELSE IF n[1] = "ref" THEN n ELSE <<"ref", n>>
     [] t[1] = "c" -> LET n == NormE(t[2]) IN IF n = BAD THEN BAD ELSE IF n[1] \in {"ref", "c"} THEN n ELSE <<"c", n>>
@@ -108,8 +122,11 @@ NormE(t) ==
             ELSE IF t[2] = "P" /\ Len(n) = 1 /\ dflt # NONE
               THEN LET d == NormE(Subst(dflt, "P", <<n[1]>>)) IN IF d = BAD THEN BAD ELSE <<"t", "P", <<n[1], d>>>>
             ELSE BAD
-    [] t[1] = "m" -> LET n == NormE(t[2])
-                     IN IF n = BAD \/ n[1] # "t" THEN BAD
+    [] t[1] = "m" -> LET nq == NormE(t[2])
+                         n == IF nq = BAD THEN BAD ELSE Unqual(nq)
+                     IN IF n = BAD THEN BAD
+                        ELSE IF n[1] = "b" THEN (IF t[3] = "t" /\ n[2] \in DOMAIN ClassMember THEN ClassMember[n[2]] ELSE BAD)
+                        ELSE IF n[1] # "t" \/ t[3] \notin Slots THEN BAD
                         ELSE LET tab == Table(n[2], n[3])
                              IN IF tab[t[3]] = NONE \/ \E s \in Slots : tab[s] = BAD THEN BAD ELSE tab[t[3]]
     [] OTHER -> BAD
